@@ -17,7 +17,10 @@ P_POOL = {
 # lines that split fine but whose value is in none of the DATE / DATE-TIME / TIME / DURATION / PERIOD grammars
 # (and that the lenient decoders also refuse: "P" or a 7-digit text would be accepted)
 PB_POOL = ["DTSTART:garbage", "DTSTART:2024", "DTSTART:20241301T000000", "DTSTART:20240101T250000",
-           "DTSTART:20240101T100000X", "DTSTART:20240101T100000/garbage", "DTSTART;TZID=Europe/Berlin:2024-01-01"]
+           "DTSTART:20240101T100000X", "DTSTART:20240101T100000/garbage", "DTSTART;TZID=Europe/Berlin:2024-01-01",
+           # multi-valued lines in which only a LATER item is bad: the whole line is dropped, nothing of it stays behind
+           "FREEBUSY:20240101T000000Z/PT1H,garbage", "FREEBUSY:20240101T000000Z/PT1H,20240102T000000Z/PT1H,x/y",
+           "RDATE:20240101T000000,garbage", "EXDATE;VALUE=DATE:20240101,2024", "RDATE;VALUE=PERIOD:20240101T000000Z/PT1H,x/y"]
 J_POOL = ["NOCOLONHERE", ":novalue", "A B:x", "X;:v", "X;P:v", 'X;P="a:v', "=:x", "X;P=a\x01b:v", "Ünï code:x" if False else "A,B:x"]
 
 
@@ -67,7 +70,9 @@ def alpha_tree(c):
         vals = v if isinstance(v, list) else [v]
         for _ in vals:
             props.append([k.upper(), "v1"])
-    return {"name": kind(c.name), "props": props, "errs": [(e[0] or "") for e in c.errors],
+    # the model's bad-value line is named DTSTART; its multi-valued concretisations carry other names
+    alias = {"FREEBUSY": "DTSTART", "RDATE": "DTSTART", "EXDATE": "DTSTART"}
+    return {"name": kind(c.name), "props": props, "errs": [alias.get((e[0] or "").upper(), e[0] or "") for e in c.errors],
             "kids": [alpha_tree(s) for s in c.subcomponents]}
 
 
